@@ -1134,3 +1134,37 @@ def noise_before_deferral_rule(ctx, rid):
         ctx.ob(rid, f'cirq.sim.mux.final_density_matrix:simulator-noise#{k}', ok2, '' if ok2 else
                f'the simulator is created with noise={ast.unparse(nz) if nz is not None else "<default>"}: on the `{ast.unparse(flag)}` path the circuit already contains the noise '
                '(or should), so the model would be applied to the deferred circuit - ancillas included', m.rel, c.lineno)
+
+
+def order_independent_reduction_rule(ctx, rid):
+    """Noise models: a quantity reduced over the operations of a moment (or over sub-models) must not depend on the order in which they are listed."""
+    repo = ctx.repo
+    ctx.rule(rid, 'order-independent reduction: in the noise-model packages, a local that is initialised before a top-level loop, assigned inside it and read after it is assigned only by '
+             'expressions that read its previous value (x = max(x, e), x += e, x = f(x)); a plain `x = e` keeps the value of whichever item happens to come last (a Moment lists equal '
+             'contents in any order)', floor=2, style='TNT')
+    n = 0
+    for m in sorted(repo.modules.values(), key=lambda x: x.rel):
+        if not m.rel.startswith(('cirq-core/cirq/devices/', 'cirq-google/cirq_google/devices/', 'cirq-aqt/cirq_aqt/', 'cirq-pasqal/cirq_pasqal/', 'cirq-core/cirq/contrib/noise_models')) \
+                or m.rel.endswith('_test.py'):
+            continue
+        for fn in [f for f in ast.walk(m.tree) if isinstance(f, ast.FunctionDef)]:
+            body = fn.body
+            for i, st in enumerate(body):
+                if not isinstance(st, ast.For):
+                    continue
+                assigned = {}
+                for a in ast.walk(st):
+                    if isinstance(a, ast.Assign) and len(a.targets) == 1 and isinstance(a.targets[0], ast.Name):
+                        assigned.setdefault(a.targets[0].id, []).append(a)
+                before = {t.id for s in body[:i] if isinstance(s, (ast.Assign, ast.AnnAssign)) for t in ([*s.targets] if isinstance(s, ast.Assign) else [s.target]) if isinstance(t, ast.Name)}
+                after = {x.id for s in body[i + 1:] for x in ast.walk(s) if isinstance(x, ast.Name) and isinstance(x.ctx, ast.Load)}
+                for v, asg in sorted(assigned.items()):
+                    if v not in before or v not in after:
+                        continue
+                    n += 1
+                    plain = [a for a in asg if not any(isinstance(x, ast.Name) and x.id == v for x in ast.walk(a.value))]
+                    ok = not plain
+                    ctx.ob(rid, f'{m.name}.{fn.name}:{v}', ok, '' if ok else f'`{ast.unparse(plain[0])[:60]}` inside the loop over `{ast.unparse(st.iter)[:30]}` overwrites `{v}` instead of combining '
+                           'it with the value so far: the result after the loop depends on which item is listed last (two equal moments get different noise)', m.rel, (plain[0].lineno if plain else st.lineno))
+    if n == 0:
+        raise AnalysisError(f'{rid}: no reduction loop found in the noise-model packages')
